@@ -288,9 +288,9 @@ Proof.
   - intros k2 it2. rewrite upd_eq. destruct (Z.eqb_spec k2 k) as [->|Hk].
     + destruct (Z.eqb_spec (it_len it - 1) 0) as [Hz|Hz]; [discriminate|].
       intro E; inversion E; subst it2; clear E; cbn.
-      assert (Hl : length (remz t (it_users it)) = pred (length (it_users it))) by now apply remz_length.
+      assert (Hl : @length tid (remz t (it_users it)) = pred (@length tid (it_users it))) by now apply remz_length.
       assert (Hge : (length (it_users it) >= 1)%nat) by (destruct (it_users it); cbn; [contradiction|lia]).
-      split; [lia|]. split; [idtac "DBG"; match goal with |- ?g => idtac g end; lia|]. split; [intro E; rewrite E in Hl; cbn in Hl; lia|].
+      split; [lia|]. split; [rewrite Hl, Hlen; destruct (length (it_users it)); [lia|]; cbn [pred]; lia|]. split; [intro E; rewrite E in Hl; cbn in Hl; lia|].
       split; [now apply remz_nodup|].
       intros x. rewrite remz_in by auto. rewrite Hmem, upd_eq.
       destruct (Z.eqb_spec x t) as [->|Hx]; cbn; [split; [tauto|discriminate] | rewrite Eo; tauto].
@@ -304,7 +304,7 @@ Proof.
     rewrite Eit in E2; inversion E2; subst it2.
     destruct (Z.eqb_spec (it_len it - 1) 0) as [Hz|Hz]; [|eexists; split; eauto].
     exfalso. assert (Hx' : In x (it_users it)) by (apply Hmem; congruence).
-    destruct (it_users it) as [|a [|b l]]; cbn in *; try lia.
+    destruct (it_users it) as [|a [|b l]]; cbn in *; try contradiction; try lia.
     destruct Hin as [|[]], Hx' as [|[]]; congruence.
   - intros k1 k2 it1 it2. rewrite !upd_eq.
     destruct (Z.eqb_spec k1 k) as [->|H1], (Z.eqb_spec k2 k) as [->|H2]; auto.
@@ -335,6 +335,6 @@ Proof.
     destruct (i_use s I x kx _ Hpx) as (itx & Ex1 & Ex2).
     assert (kx = k) by (eapply (i_inj s I); eauto). subst kx.
     assert (Hx' : In x (it_users it)) by (apply Hmem; congruence).
-    destruct (it_users it) as [|a [|b l]]; cbn in *; try lia.
+    destruct (it_users it) as [|a [|b l]]; cbn in *; try contradiction; try lia.
     destruct Hin as [|[]], Hx' as [|[]]; congruence.
 Qed.
